@@ -88,10 +88,10 @@ def check_C14(tier):
     return res.finish()
 
 
-def multi_trace(res, vh, stage, clients, badpeers, conns, maxlen, transport):
+def multi_trace(res, vh, stage, clients, badpeers, conns, maxlen, transport, burst=0, initial=4):
     tr = os.path.join(res.wd, "mtrace-%s.ndjson" % stage)
     fails, summ, _ = run_vh(vh, ["conntrace", "--conns=%d" % conns, "--maxlen=%d" % maxlen, "--clients=%d" % clients,
-                                 "--badpeers=%d" % badpeers, "--out=" + tr, "--transport=" + transport], [], timeout=1800)
+                                 "--badpeers=%d" % badpeers, "--out=" + tr, "--transport=" + transport, "--burst=%d" % burst, "--initial=%d" % initial], [], timeout=1800)
     res.add_failures(fails, stage)
     from .conn_checks import BUGS_OFF
     validate_trace(res, "Trace_Conn", tr, stage, consts=BUGS_OFF)
@@ -140,13 +140,22 @@ def check_C13(tier):
                 (8, 4, 800, "tcp"), (32, 8, 1280, "tcp"), (64, 16, 1280, "tcp")]
     nconn = 0
     for k, (clients, bad, conns, transport) in enumerate(plan):
-        s = multi_trace(res, vh, "c%d-%s-%d" % (clients, transport, k), clients, bad, conns, 24 if thorough else 12, transport)
+        # the first connections of every client are made in lock step (IdleDoesNotBlock on the real pool: all clients connect at
+        # once and nobody leaves before everybody was served), the rest free-running
+        s = multi_trace(res, vh, "c%d-%s-%d" % (clients, transport, k), clients, bad, conns, 24 if thorough else 12, transport,
+                        burst=4 if thorough else 2)
         nconn += s["conns"]
+        if bad == 0 or k == 1:
+            # lock-step rounds only, nothing else going on (no other connection comes or goes that could wake the pool up), pool
+            # starting from one worker: a connection that is served only when another one ends or arrives has nobody to wait for
+            s2 = multi_trace(res, vh, "burst%d-%s-%d" % (clients, transport, k), max(clients, 12), 0, max(clients, 12) * 3, 4, transport, burst=3, initial=1)
+            nconn += s2["conns"]
         res.sample({"clients": clients, "misbehaving_peers": bad, "connections": s["conns"], "requests": s["requests"], "transport": transport})
     res.nontrivial_count = nconn
     res.rule = ("MultiConn.tla: N connections over the pool, every interleaving (TLC), PerConnRefines / OwnRepliesOnly / IdleDoesNotBlock; "
                 "real server: concurrent clients each pipelining seeded random sequences with unique tokens, random segmentation and delays, "
-                "beside idle, silent, mid-message-disconnecting and garbage-sending peers; each connection's reply stream validated by "
+                "beside idle, silent, mid-message-disconnecting and garbage-sending peers, the first rounds in lock step (all connect at once, "
+                "nobody leaves before everybody has been served); each connection's reply stream validated by "
                 "Trace_Conn for its own input (a foreign token is rejected); non-trivial = connections validated (each with its own random "
                 "sequence)")
     res.exhaustive = False
